@@ -151,29 +151,6 @@ func (e *kvElection) heartbeatLoop(ctx context.Context) {
 					e.cfg.Metrics.ObserveHeartbeatDuration(duration, labels)
 				}
 
-				// Check if it's a revision mismatch (possible priority takeover)
-				// Revision mismatch errors contain "revision mismatch" in the message
-				if strings.Contains(strings.ToLower(updateErr.Error()), "revision mismatch") {
-					// Get current leader to check if it's a priority takeover
-					entry, getErr := e.kv.Get(e.key)
-					if getErr == nil && entry != nil {
-						var currentPayload leadershipPayload
-						if json.Unmarshal(entry.Value(), &currentPayload) == nil {
-							if currentPayload.ID != e.cfg.InstanceID {
-								// We were taken over!
-								log.Warn("leadership_taken_over",
-									append(e.logWithContext(ctx),
-										zap.String("new_leader", currentPayload.ID),
-										zap.Int("new_priority", currentPayload.Priority),
-										zap.Int("our_priority", e.cfg.Priority),
-										zap.Uint64("revision", entry.Revision()),
-									)...,
-								)
-							}
-						}
-					}
-				}
-
 				if IsPermanentError(updateErr) {
 					log.Error("heartbeat_failed",
 						append(e.logWithContext(ctx),
@@ -185,6 +162,17 @@ func (e *kvElection) heartbeatLoop(ctx context.Context) {
 					)
 					e.recordFailure(errorType)
 					e.handleHeartbeatFailure(updateErr)
+					// A revision mismatch may be a priority takeover: say who took
+					// over. The lookup reads the store, so it runs after the demotion
+					// and outside this loop - a store that hangs on the read must not
+					// keep the instance from stepping down.
+					if strings.Contains(strings.ToLower(updateErr.Error()), "revision mismatch") {
+						e.wg.Add(1)
+						go func() {
+							defer e.wg.Done()
+							e.logTakeover(ctx)
+						}()
+					}
 					return
 				}
 
@@ -236,6 +224,30 @@ func (e *kvElection) heartbeatLoop(ctx context.Context) {
 // OnDemote) like for any other loss of leadership.
 func (e *kvElection) handleHeartbeatContextDone() {
 	e.demote("context_cancelled")
+}
+
+// logTakeover reads the current record and logs its owner if it is another instance.
+func (e *kvElection) logTakeover(ctx context.Context) {
+	entry, getErr := e.kv.Get(e.key)
+	if getErr != nil || entry == nil {
+		return
+	}
+	var currentPayload leadershipPayload
+	if json.Unmarshal(entry.Value(), &currentPayload) != nil {
+		return
+	}
+	if currentPayload.ID != e.cfg.InstanceID {
+		// We were taken over!
+		log := e.getLogger()
+		log.Warn("leadership_taken_over",
+			append(e.logWithContext(ctx),
+				zap.String("new_leader", currentPayload.ID),
+				zap.Int("new_priority", currentPayload.Priority),
+				zap.Int("our_priority", e.cfg.Priority),
+				zap.Uint64("revision", entry.Revision()),
+			)...,
+		)
+	}
 }
 
 func (e *kvElection) handleHeartbeatFailure(err error) {
